@@ -1,7 +1,7 @@
 (* Executable model of boltons.ioutils SpooledBytesIO / SpooledStringIO /
    MultiFileReader AS WRITTEN (after the fix: commits 2ebe104 SpooledStringIO.len,
    58e1fc2 MultiFileReader.seek, 3166b79 __next__ at/past the end, 7904e8d
-   SpooledBytesIO.readlines(sizehint)).  Definitions only.
+   SpooledBytesIO.readlines(sizehint), b866c21 SpooledStringIO.rollover).  Definitions only.
 
    What is modelled and trusted (not verified):
    * the backing object - io.BytesIO before rollover, tempfile.TemporaryFile
@@ -125,6 +125,7 @@ Definition sb_step (s : sbytes) (op : fop) : sbytes * fobs :=
   match op with
   | Write d => (sb_write s d, ONone)
   | WriteLines ds => (fold_left sb_write ds s, ONone)       (* for line in lines: self.write(line) *)
+  | Rollover => (sb_rollover s, ONone)
   | WriteBad => (s, OErr TypeError)
   | Read n => let '(b, o) := call (sb_buf s) (Read n) in (sb_with s b, o)
   | ReadLine lim => let '(s', d) := sb_readline s lim in (s', OData d)
@@ -324,23 +325,6 @@ Definition ss_read (s : sstring) (n : option nat) : sstring * list N :=
   let '(e, ret) := rd_read (ss_buf s) n n in
   (ss_with s e (ss_tell s + length ret), ret).
 
-(* rollover(): tmp = EncodedFile(TemporaryFile()); pos = buffer.tell();
-   tmp.write(buffer.getvalue()); tmp.seek(pos) *)
-Definition ss_rollover (s : sstring) : sstring :=
-  if ss_rolled s then s
-  else
-    let pos := ef_tell (ss_buf s) in
-    let tmp := mkEF rf_empty (mkRd [] [] None (rd_ok (ef_rd (ss_buf s)))) in
-    let tmp := ef_write tmp (rf_data (ef_stream (ss_buf s))) in
-    let tmp := ef_seek tmp (Z.of_nat pos) 0 in
-    mkSS tmp true (ss_max s) (ss_chunk s) (ss_tell s).
-
-Definition ss_write (s : sstring) (d : list N) : sstring :=
-  let current_pos := ss_tell s in
-  let bytes := utf8_enc d in
-  let s1 := if ss_max s <=? ef_tell (ss_buf s) + length bytes then ss_rollover s else s in
-  ss_with s1 (ef_write (ss_buf s1) bytes) (current_pos + length d).
-
 (* _traverse_codepoints(current_position, n) *)
 Fixpoint ss_traverse (fuel : nat) (s : sstring) (cur dest : nat) : sstring :=
   match fuel with
@@ -358,6 +342,23 @@ Definition ss_seek_set (s : sstring) (pos : nat) : sstring :=
   let s1 := ss_with s (ef_seek (ss_buf s) 0 0) (ss_tell s) in
   let s2 := ss_traverse (S (S pos)) s1 0 pos in
   ss_with s2 (ss_buf s2) pos.
+
+(* rollover() (after fix b866c21): tmp = EncodedFile(TemporaryFile()); pos = self.tell();
+   tmp.write(buffer.getvalue()); self._buffer = tmp; self.seek(pos) - the code-point position is
+   re-established on the new file with its fresh reader *)
+Definition ss_rollover (s : sstring) : sstring :=
+  if ss_rolled s then s
+  else
+    let pos := ss_tell s in
+    let tmp := mkEF rf_empty (mkRd [] [] None (rd_ok (ef_rd (ss_buf s)))) in
+    let tmp := ef_write tmp (rf_data (ef_stream (ss_buf s))) in
+    ss_seek_set (mkSS tmp true (ss_max s) (ss_chunk s) (ss_tell s)) pos.
+
+Definition ss_write (s : sstring) (d : list N) : sstring :=
+  let current_pos := ss_tell s in
+  let bytes := utf8_enc d in
+  let s1 := if ss_max s <=? ef_tell (ss_buf s) + length bytes then ss_rollover s else s in
+  ss_with s1 (ef_write (ss_buf s1) bytes) (current_pos + length d).
 
 (* the loop of len: while True: ret = read(CHUNK); if not ret: break; total += len(ret) *)
 Fixpoint ss_count (fuel : nat) (s : sstring) (total : nat) : sstring * nat :=
@@ -441,6 +442,7 @@ Definition ss_step0 (s : sstring) (op : fop) : sstring * fobs :=
   match op with
   | Write d => (ss_write s d, ONone)
   | WriteLines ds => (fold_left ss_write ds s, ONone)
+  | Rollover => (ss_rollover s, ONone)
   | WriteBad => (s, OErr TypeError)
   | Read n => let '(s', d) := ss_read s n in (s', OData d)
   | ReadLine None => let '(s', d) := ss_readline s in (s', OData d)
